@@ -665,27 +665,42 @@ func mustFail(c *Case, o Op, ex fr.Exchange) bool {
 		return false
 	}
 	read := q.M == "GET" || q.M == "HEAD"
+	if (o.Kind == "fetchref" || o.Kind == "bfetchref") && q.M == "GET" && ex.R.CLen == nil {
+		// a GET without Content-Length only supplies the body: the descriptor is
+		// derived from a second (HEAD) request, the headers of the GET are not used
+		return false
+	}
+	// what the call knows about the content it asked for
+	wantDigest := ""
+	if hasDesc {
+		wantDigest = o.D.DG
+	} else if digestRef {
+		wantDigest = q.EP.Arg
+	}
 	switch f {
 	case "dig-garbage":
 		return (read && (q.EP.Kind == "blob" || q.EP.Kind == "man")) || q.M == "DELETE" ||
 			(q.M == "PUT" && q.EP.Kind == "man") || (q.M == "POST" && orig == 201)
 	case "dig-other":
-		if q.M == "PUT" && q.EP.Kind == "man" {
-			return true
+		// the header names other content than the one requested
+		contradicts := wantDigest != "" && ex.R.Dig != nil && *ex.R.Dig != wantDigest
+		if !contradicts {
+			return false
+		}
+		if q.M == "PUT" {
+			return q.EP.Kind == "man"
 		}
 		if q.M == "POST" {
 			return orig == 201
 		}
-		if q.M == "PUT" {
-			return false
-		}
-		return (digestRef || hasDesc) && (q.EP.Kind == "blob" || q.EP.Kind == "man")
+		return q.EP.Kind == "blob" || q.EP.Kind == "man"
 	case "len-inc":
-		return q.M == "GET" && hasDesc && (q.EP.Kind == "blob" || q.EP.Kind == "man") && (c.Prof.CLen)
+		return q.M == "GET" && hasDesc && (q.EP.Kind == "blob" || q.EP.Kind == "man") &&
+			ex.R.CLen != nil && *ex.R.CLen != o.D.SZ
 	case "len-drop":
 		return q.M == "HEAD" && (o.Kind == "resolve" || o.Kind == "bresolve")
 	case "type-other":
-		return q.M == "GET" && q.EP.Kind == "man" && hasDesc
+		return q.M == "GET" && q.EP.Kind == "man" && hasDesc && ex.R.CType != nil && *ex.R.CType != o.D.MT
 	case "type-garbage", "type-drop":
 		return read && q.EP.Kind == "man"
 	case "loc-drop":
@@ -730,8 +745,11 @@ func execHistory(id string, c *Case) (nreq int) {
 			trs = strings.Join(tr, ";")
 		}
 		parts = append(parts, res.Str+" "+trs)
-		run.Count("op:" + o.Kind)
-		run.Count("result:" + strings.SplitN(res.Str, ":", 2)[0])
+		cls := strings.SplitN(res.Str, ":", 2)[0]
+		if cls == "err" {
+			cls = res.Str
+		}
+		run.Count("op:" + o.Kind + ":" + cls)
 		if len(tr) > 1 {
 			nontrivial = true
 		}
@@ -1004,7 +1022,7 @@ func genCase(r *common.Rand, nops int) *Case {
 		return fr.Desc{MT: mt, DG: p.Digest, SZ: int64(len(p.Bytes))}
 	}
 	skew := func(d fr.Desc) fr.Desc {
-		switch r.Intn(12) {
+		switch r.Intn(24) {
 		case 0:
 			d.SZ++
 		case 1:
@@ -1019,30 +1037,59 @@ func genCase(r *common.Rand, nops int) *Case {
 		return d
 	}
 	someDesc := func() fr.Desc {
-		if len(pushed) > 0 && r.Chance(3, 4) {
+		if len(pushed) > 0 && r.Chance(9, 10) {
 			return skew(common.Pick(r, pushed))
 		}
 		return skew(descOf(r.Intn(len(c.Pool))))
 	}
+	usedTags := []string{}
+	manDigests := []string{}
+	manDescs := []fr.Desc{}
+	blobDigests := []string{}
+	someManDesc := func() fr.Desc {
+		if len(manDescs) > 0 && r.Chance(9, 10) {
+			return skew(common.Pick(r, manDescs))
+		}
+		return someDesc()
+	}
 	someRef := func() string {
-		switch r.Intn(10) {
-		case 0:
+		switch x := r.Intn(20); {
+		case x == 0:
 			return common.Pick(r, badRefs)
-		case 1, 2, 3:
+		case x < 5:
+			if len(manDigests) > 0 && r.Chance(4, 5) {
+				return common.Pick(r, manDigests)
+			}
 			return someDesc().DG
-		case 4:
+		case x == 5:
+			if len(manDigests) > 0 {
+				return "whatever@" + common.Pick(r, manDigests)
+			}
 			return "whatever@" + someDesc().DG
+		case x < 16 && len(usedTags) > 0:
+			return common.Pick(r, usedTags)
 		}
 		return common.Pick(r, tagPool)
 	}
+	prologue := 2 + r.Intn(3)
 	for len(c.Ops) < nops {
 		var o Op
 		o.CI = -1
-		switch x := r.Intn(100); {
+		x := r.Intn(100)
+		if len(c.Ops) < prologue {
+			x = r.Intn(30) // histories start by pushing something
+		}
+		switch {
 		case x < 22:
 			i := r.Intn(len(c.Pool))
 			o = Op{Kind: "push", D: descOf(i), CI: i}
 			pushed = append(pushed, o.D)
+			if isManifest(c, o.D.MT) {
+				manDigests = append(manDigests, o.D.DG)
+				manDescs = append(manDescs, o.D)
+			} else {
+				blobDigests = append(blobDigests, o.D.DG)
+			}
 			if r.Chance(1, 10) {
 				o.D = skew(o.D)
 			}
@@ -1051,7 +1098,15 @@ func genCase(r *common.Rand, nops int) *Case {
 			d := descOf(i)
 			d.MT = common.Pick(r, manMTs)
 			o = Op{Kind: "pushref", D: d, CI: i, S: someRef()}
+			if r.Chance(2, 3) {
+				o.S = common.Pick(r, tagPool)
+			}
 			pushed = append(pushed, o.D)
+			manDigests = append(manDigests, d.DG)
+			manDescs = append(manDescs, d)
+			if k, rf := refKind(o.S); k == "tag" {
+				usedTags = append(usedTags, rf)
+			}
 			if r.Chance(1, 12) {
 				o.D = skew(o.D)
 			}
@@ -1059,14 +1114,20 @@ func genCase(r *common.Rand, nops int) *Case {
 			o = Op{Kind: "fetch", D: someDesc(), CI: -1}
 		case x < 55:
 			o = Op{Kind: "exists", D: someDesc(), CI: -1}
-		case x < 62:
+		case x < 59:
 			o = Op{Kind: "delete", D: someDesc(), CI: -1}
 		case x < 70:
 			o = Op{Kind: "resolve", S: someRef(), CI: -1}
 		case x < 78:
 			o = Op{Kind: "fetchref", S: someRef(), CI: -1}
 		case x < 85:
-			o = Op{Kind: "tag", D: someDesc(), S: someRef(), CI: -1}
+			o = Op{Kind: "tag", D: someManDesc(), S: someRef(), CI: -1}
+			if r.Chance(1, 2) {
+				o.S = common.Pick(r, tagPool)
+			}
+			if k, rf := refKind(o.S); k == "tag" {
+				usedTags = append(usedTags, rf)
+			}
 		case x < 91:
 			if len(c.OtherIdx) == 0 && r.Bool() {
 				continue
@@ -1088,8 +1149,14 @@ func genCase(r *common.Rand, nops int) *Case {
 			o = Op{Kind: "preds", D: someDesc(), CI: -1}
 		case x < 98:
 			o = Op{Kind: "bresolve", S: someRef(), CI: -1}
+			if len(blobDigests) > 0 && r.Chance(3, 4) {
+				o.S = common.Pick(r, blobDigests)
+			}
 		default:
 			o = Op{Kind: "bfetchref", S: someRef(), CI: -1}
+			if len(blobDigests) > 0 && r.Chance(3, 4) {
+				o.S = common.Pick(r, blobDigests)
+			}
 		}
 		c.Ops = append(c.Ops, o)
 	}
@@ -1160,7 +1227,7 @@ func main() {
 		return
 	}
 	r := run.Rand
-	nh := run.Scale(220, 5000)
+	nh := run.Scale(1200, 40000)
 	for i := 0; i < nh; i++ {
 		c := genCase(r.Fork(), 6+r.Intn(run.Scale(16, 30)))
 		n := execHistory(run.NewID(), c)
@@ -1182,7 +1249,7 @@ func main() {
 			execHistory(run.NewID(), &cc)
 		}
 	}
-	ns := run.Scale(300, 6000)
+	ns := run.Scale(2500, 100000)
 	for i := 0; i < ns; i++ {
 		execSeek(run.NewID(), genSeek(r.Fork()))
 	}
